@@ -895,3 +895,41 @@ def c18_reports(case, impl_case, extra):
         if k.startswith("REP ") and v[0] != "ok":
             fails.append("report %s raised %s" % (k[4:], " ".join(v[1:])))
     return fails
+
+
+# ---------------------------------------------------------------- C01 on recorded histories
+def c01_recorded_rows(case, impl_case):
+    """every recorded row of every strategy (paper copies included): value = cash + the children's recorded values, and a
+    security's recorded value is its recorded position x the data price x multiplier (0 on a missing price)"""
+    state = impl_case["steps"][-1]["state"]
+    root, nodes, _ = build_tree(state)
+    if root is None:
+        return []
+    fails = []
+    mults = mults_of_case(case)
+    prices = {int(t): [tok_val(x) for x in col] for t, col in case["prices"]}
+    for path, n in nodes.items():
+        if n.kind == "G":
+            vals, cash = n.vals("hg_values"), n.vals("hg_cash")
+            kids = [k.vals("h_values") if k.kind == "S" else k.vals("hg_values") for k in n.kids]
+            scale = max([abs(v) for v in vals if isinstance(v, float)] + [1.0])
+            for i in range(len(vals)):
+                tot = cash[i] + sum(k[i] for k in kids if i < len(k))
+                if isinstance(vals[i], float) and abs(vals[i] - tot) > 1e-9 * scale:
+                    fails.append("%s row %d: recorded value %r != recorded cash %r + children's recorded values %r"
+                                 % (path, i, vals[i], cash[i], tot - cash[i]))
+                    break
+        else:
+            tid = int(path.split(".")[-1].rstrip("~"))
+            pos, vals = n.vals("h_positions"), n.vals("h_values")
+            px = prices.get(tid)
+            m = mult_of(case, strip_paper(path), mults)
+            if px is None:
+                continue
+            for i in range(1, len(vals)):              # row 0 is the synthetic row
+                p = px[i - 1] if i - 1 < len(px) else "nan"
+                want = 0.0 if (p == "nan" or pos[i] == 0) else pos[i] * p * m
+                if isinstance(vals[i], float) and abs(vals[i] - want) > 1e-9 * max(1.0, abs(want)):
+                    fails.append("%s row %d: recorded value %r != recorded position %r x price %r x multiplier %r" % (path, i, vals[i], pos[i], p, m))
+                    break
+    return fails
